@@ -8,9 +8,11 @@ import (
 	"context"
 	"errors"
 	"fmt"
+	"github.com/pascaldekloe/mqtt"
 	"io"
 	"net"
 	"os"
+	"path/filepath"
 	"sort"
 	"strings"
 	"sync"
@@ -279,6 +281,31 @@ type simStore struct {
 	onOp   func(kind string, key uint) bool // true: fail this operation
 	before func(kind string, key uint)      // called before the operation takes the store's lock (gates)
 	listFn func(keys []uint) []uint         // order of List results (nil: ascending)
+	fs     mqtt.Persistence                 // when set: the real FileSystem store of the library does the work
+	fsDir  string
+}
+
+// useFileSystem backs the store with mqtt.FileSystem(dir): every operation goes to the real
+// implementation and its answers are what the client gets and what the log records; the map
+// stays as the harness's view for snapshots and tampering (syncFS writes it back to the files).
+func (s *simStore) useFileSystem(dir string) {
+	s.fsDir = dir
+	s.fs = mqtt.FileSystem(dir)
+}
+
+func (s *simStore) syncFS() {
+	if s.fs == nil {
+		return
+	}
+	s.mu.Lock()
+	defer s.mu.Unlock()
+	ents, _ := os.ReadDir(s.fsDir)
+	for _, e := range ents {
+		os.Remove(filepath.Join(s.fsDir, e.Name()))
+	}
+	for k, v := range s.m {
+		os.WriteFile(filepath.Join(s.fsDir, fmt.Sprintf("%05x", k)), v, 0o644)
+	}
 }
 
 func newSimStore(log *evlog) *simStore {
@@ -297,6 +324,14 @@ func (s *simStore) Load(key uint) ([]byte, error) {
 		return nil, errSimStore
 	}
 	v, ok := s.m[key]
+	if s.fs != nil {
+		fv, err := s.fs.Load(key)
+		if err != nil {
+			s.log.add(event{Kind: "load", Key: key, Ans: 1})
+			return nil, err
+		}
+		v, ok = fv, fv != nil
+	}
 	s.log.add(event{Kind: "load", Key: key, Found: ok, Data: append([]byte(nil), v...)})
 	if !ok {
 		return nil, nil
@@ -321,6 +356,12 @@ func (s *simStore) Save(key uint, value net.Buffers) error {
 		s.log.add(event{Kind: "save", Key: key, Bytes: all, Ans: 1})
 		return errSimStore
 	}
+	if s.fs != nil {
+		if err := s.fs.Save(key, value); err != nil {
+			s.log.add(event{Kind: "save", Key: key, Bytes: all, Ans: 1})
+			return err
+		}
+	}
 	s.m[key] = all
 	s.log.add(event{Kind: "save", Key: key, Bytes: all})
 	return nil
@@ -332,6 +373,12 @@ func (s *simStore) Delete(key uint) error {
 	if s.fail("delete", key) {
 		s.log.add(event{Kind: "delete", Key: key, Ans: 1})
 		return errSimStore
+	}
+	if s.fs != nil {
+		if err := s.fs.Delete(key); err != nil {
+			s.log.add(event{Kind: "delete", Key: key, Ans: 1})
+			return err
+		}
 	}
 	delete(s.m, key)
 	s.log.add(event{Kind: "delete", Key: key})
@@ -352,6 +399,20 @@ func (s *simStore) List() ([]uint, error) {
 	sort.Slice(keys, func(i, j int) bool { return keys[i] < keys[j] })
 	if s.listFn != nil {
 		keys = s.listFn(keys)
+	}
+	if s.fs != nil {
+		fk, err := s.fs.List()
+		if err != nil {
+			s.log.add(event{Kind: "list", Ans: 1})
+			return nil, err
+		}
+		// directory order is arbitrary; the model lists in ascending order (that the result of
+		// AdoptSession does not depend on the order is a theorem, adopt_order_independent)
+		sort.Slice(fk, func(i, j int) bool { return fk[i] < fk[j] })
+		if s.listFn != nil {
+			fk = s.listFn(fk)
+		}
+		keys = fk
 	}
 	s.log.add(event{Kind: "list", Keys: append([]uint(nil), keys...)})
 	return keys, nil
